@@ -35,7 +35,7 @@ EXCS = {"RuntimeError": RuntimeError, "ValueError": ValueError, "OSError": OSErr
 VIEWS = ["contig", "slice", "step", "transpose", "inner", "expand"]
 CLS = ["rand", "all256", "zeros", "ff", "ramp", "cover"]
 ATEN = ["add", "eq", "sum", "select", "slice", "reshape", "clone", "to_int32", "cat"]
-OPKINDS = ["unpack_bytes", "unpack_packed", "pack", "aten", "detach", "to", "flatten", "noext"]
+OPKINDS = ["unpack_bytes", "unpack_packed", "pack", "aten", "detach", "to", "flatten", "noext", "mutate"]
 PREFIXES = ["", "w.", "weight._data.", "m.0.weight._data."]
 FALLBACK = "Falling back to default implementation"
 
@@ -642,6 +642,39 @@ class World:
         self.log.add("aten", op["fn"], hexdigest(_np(exp).tobytes(), tuple(exp.shape)))
         return route if ok else "WRONG"
 
+    def op_mutate(self, op, p):
+        """The caller obtains values of a packed tensor (unpack(), or a reshaping/slicing op on it), overwrites
+        *that result* in place, and unpacks again: what the packed tensor denotes must not have moved
+        (an unpack at any point of a history returns the original tensor)."""
+        e = self.packed(op)
+        if e is None:
+            return "skipped"
+        how = op.get("how", "unpack")
+        get = {
+            "unpack": lambda: e.obj.unpack(),
+            "reshape": lambda: e.obj.reshape(-1),
+            "select": lambda: e.obj.select(0, 0),
+            "slice": lambda: e.obj[: max(1, e.obj.shape[0] // 2)],
+        }.get(how)
+        if get is None:
+            return "skipped"
+        got, exc, route = self.routed(get, op, p)
+        if exc is not None:
+            return route
+        _, exc2 = _call(lambda: got.add_(op.get("k", 1)) if op.get("mut", "add_") == "add_" else got.zero_())
+        if exc2 is not None:
+            return "skipped"
+        self.res["judged"] += 1
+        if not np.array_equal(_np(e.obj._data), e.raw):
+            self.violate("preserved", "mutate", {"what": "payload_bytes", "how": how}, f"overwriting the result of {how} changed the packed payload", p)
+            return "bad"
+        back, exc, route2 = self.routed(lambda: e.obj.unpack(), op, p)
+        if exc is not None:
+            return route2
+        ok = self.same(back, e.truth, "history", "mutate", {"how": how}, f"unpack() after the result of an earlier {how} was overwritten in place (route {route2})", p)
+        self.probe("unpacked_result_overwritten_in_place")
+        return route2 if ok else "WRONG"
+
     def derived(self, op, p, e, Q, what):
         """Q was obtained from the packed tensor e.obj by detach / to / flatten->unflatten: must be the same packed tensor."""
         self.res["judged"] += 1
@@ -880,6 +913,8 @@ class Planner:
             bits, shape = self.packs[pid]
             if k == "unpack_packed":
                 self.emit(ops, {"op": "unpack", "x": pid, "via": self.vias(True)})
+            elif k == "mutate":
+                self.emit(ops, {"op": "mutate", "x": pid, "how": r.choice(["unpack", "unpack", "reshape", "select", "slice"]), "mut": r.choice(["add_", "add_", "zero_"]), "k": r.choice([1, 3, 255])})
             elif k == "aten":
                 self.emit(ops, self.aten(pid, shape))
             else:
